@@ -138,3 +138,21 @@ Definition from_raw_dn_gen (var : variant) (t : name_table) (dn : bytes) (parsed
   | None => hex_of false dn
   end.
 Definition from_raw_dn := from_raw_dn_gen current x500_names.
+
+(* ---------- getCertificateInfo (internal/file/der.go:53): the two names of a certificate ----------
+   der.go:82   Attribute{"Subject", names.FromRawDN(c.RawSubject)}
+   der.go:87   Attribute{"Issuer",  names.FromRawDN(c.RawIssuer)}
+   Two calls, each on the bytes of its own name as they stand in the certificate
+   (c.RawSubject / c.RawIssuer, not the normalised pkix.Name): nothing is shared between them.
+   A name is given as its DER and what the library decoding returned for it (see from_raw_dn_gen). *)
+Definition raw_name : Type := (bytes * option (list (list atv)))%type.
+Definition cert_names_gen (var : variant) (t : name_table) (subject issuer : raw_name) : bytes * bytes :=
+  (from_raw_dn_gen var t (fst subject) (snd subject), from_raw_dn_gen var t (fst issuer) (snd issuer)).
+Definition cert_names := cert_names_gen current x500_names.
+
+(* Several certificates in one file: PEMFile (internal/file/parsers.go:96-123, one parsePEMBlock
+   -> parseCertificate -> getCertificateInfo per block, pem.go:13) and JavaKeystore / JCEKeystore
+   (parsers.go:54-78, parseJKSEntry jks.go:17-29, one parseCertificate per certificate of an
+   entry): every certificate is described on its own, in file order. *)
+Definition carrier_names (certs : list (raw_name * raw_name)) : list (bytes * bytes) :=
+  map (fun c => cert_names (fst c) (snd c)) certs.
